@@ -20,6 +20,13 @@ process only orchestrates):
                  without starting 10^5 pools; gc.collect of MultiprocessingBackend.configure is stubbed.
 * mp is None:    a worker started with JOBLIB_MULTIPROCESSING=0.
 * nesting:       get_nested_backend() of every class x level; a real threading-on-top nest of depth 3.
+* MEASURED, both tiers (real pools, in subprocesses): SEQUENCES of 2-3 consecutive Parallel calls on one backend (loky with
+                 the executor-reuse conditions met — *_NUM_THREADS exported, or inner_max_num_threads given —, threading,
+                 multiprocessing) with n_jobs growing and shrinking (4->2, 2->4->1, -1->2, ...), written as plain calls, inside
+                 `with parallel_config(...)` and inside `with Parallel(...) as p`; every task records (pid, thread id, start, end);
+                 oracle per call: high-water mark of simultaneously running tasks <= resolved n_jobs, distinct workers <= n_jobs,
+                 live loky workers after the call <= n_jobs; the live-worker counts are also compared with the model of the
+                 reusable executor's resize decision (`resize` request, theorem resize_worker_count_eq).
 * SUPPORTING, thorough tier only (measured, not proved): high-water mark of simultaneously running tasks
                  <= resolved n_jobs on threading and loky; pids / thread ids / backend classes for nests of depth 3 under
                  threading, loky and multiprocessing tops; worker environment (daemon, main thread, loky depth).
@@ -49,6 +56,8 @@ REQUIRED_THEOREMS = [
     "C15.worker_uses_nested",
     "C15.process_backend_in_worker_one",
     "C15.nested_default_no_processes",
+    "C15.resize_worker_count_eq",
+    "C15.sequence_worker_count_eq",
 ]
 TRUSTED_EXTRA = [
     "PARTIAL (DESIGN C15): that ThreadPool(n) / MemmappingPool(n) / loky's executor(max_workers=n) run at most n tasks at "
@@ -335,7 +344,58 @@ def job_highwater(job):
         out.append(dict(cfg=cfg, resolved=int(resolved), highwater=hw, workers=len({(r[0], r[1]) for r in recs}), pids=len({r[0] for r in recs}), mainpid=os.getpid()))
     return out
 
-JOBS = dict(cpu_real=job_cpu_real, cpu_mock=job_cpu_mock, eff=job_eff, nested=job_nested, nest=job_nest, highwater=job_highwater)
+def loky_state():
+    from joblib.externals.loky import reusable_executor as rex
+    ex = rex._executor
+    if ex is None:
+        return None
+    return dict(id=ex.executor_id, max=ex._max_workers, alive=len(ex._processes), started=ex._executor_manager_thread is not None)
+
+def measure(p, n_tasks, dur):
+    """One real Parallel call: high-water mark of simultaneously running tasks, distinct workers."""
+    resolved = call(p._backend.effective_n_jobs, p.n_jobs)
+    before = loky_state()
+    recs = p(delayed(timed)(i, dur * (1 + (i % 3) * 0.5)) for i in range(n_tasks))
+    after = loky_state()
+    ev = sorted([(r[2], 1) for r in recs] + [(r[3], -1) for r in recs], key=lambda x: (x[0], x[1]))
+    cur = hw = 0
+    for _, d in ev:
+        cur += d; hw = max(hw, cur)
+    return dict(cls=LET.get(type(p._backend).__name__, "?"), n_jobs=p.n_jobs, resolved=resolved, highwater=hw,
+                workers=len({(r[0], r[1]) for r in recs}), pids=len({r[0] for r in recs}), before=before, after=after)
+
+def job_sequence(job):
+    """Consecutive Parallel calls with growing and shrinking n_jobs, in the forms users write them."""
+    out = []
+    for sc in job["scripts"]:
+        b = sc["backend"]
+        extra = {"inner_max_num_threads": 1} if sc.get("imnt") else {}
+        calls = []
+        outer = parallel_config(backend=b, **extra) if sc.get("outer") else contextlib.nullcontext()
+        try:
+            with outer:
+                for st in sc["steps"]:
+                    n, form = st["n_jobs"], st["form"]
+                    bk = {} if sc.get("outer") else {"backend": b}
+                    if form == "plain":
+                        m = [measure(Parallel(n_jobs=n, **bk), job["ntasks"], job["dur"])]
+                    elif form == "config":
+                        with parallel_config(backend=b, n_jobs=n, **extra):
+                            m = [measure(Parallel(), job["ntasks"], job["dur"])]
+                    elif form == "managed":
+                        with Parallel(n_jobs=n, **bk) as p:
+                            m = [measure(p, job["ntasks"], job["dur"]), measure(p, job["ntasks"], job["dur"])]
+                    else:
+                        raise ValueError(form)
+                    for x in m:
+                        x["step"] = st
+                    calls.extend(m)
+            out.append(dict(script=sc, calls=calls))
+        except Exception as e:
+            out.append(dict(script=sc, calls=calls, error=type(e).__name__ + ": " + str(e)[:200]))
+    return out
+
+JOBS = dict(sequence=job_sequence, cpu_real=job_cpu_real, cpu_mock=job_cpu_mock, eff=job_eff, nested=job_nested, nest=job_nest, highwater=job_highwater)
 if __name__ == "__main__":
     job = json.load(open(sys.argv[1]))
     res = JOBS[job["kind"]](job)
@@ -698,6 +758,107 @@ def judge_nest(res, top, rec, requests, expected, descs):
         descs.append(dict(desc, stream="worker-env"))
 
 
+NUM_THREADS_VARS = ["OMP_NUM_THREADS", "OPENBLAS_NUM_THREADS", "MKL_NUM_THREADS", "BLIS_NUM_THREADS",
+                    "VECLIB_MAXIMUM_THREADS", "NUMBA_NUM_THREADS", "NUMEXPR_NUM_THREADS"]
+SEQUENCES = [[4, 2], [2, 4, 1], [-1, 2], [3, 2, 3], [2, 3], [4, 3, 2]]
+SEQ_CPUS = 6  # LOKY_MAX_CPU_COUNT of the measuring subprocesses: n_jobs=-1 means 6 there
+
+
+def sequence_scripts(ctx, backend, imnt, outer_choices, nseq):
+    rng = ctx.rng(f"seq/{backend}/{imnt}")
+    scripts = []
+    seqs = SEQUENCES[:nseq]
+    if nseq > 3:  # one seed-dependent sequence on top of the fixed ones
+        seqs = seqs + [[rng.choice([2, 3, 4, 5, -1, -2]) for _ in range(rng.choice([2, 3]))]]
+    forms = ["plain", "config", "managed"]
+    for i, seq in enumerate(seqs):
+        outer = outer_choices[i % len(outer_choices)]
+        steps = []
+        for j, n in enumerate(seq):
+            form = forms[(i + j) % 3] if i < 3 else rng.choice(forms)
+            if outer and form == "config":
+                form = "plain"
+            steps.append(dict(n_jobs=n, form=form))
+        scripts.append(dict(backend=backend, imnt=imnt, outer=outer, steps=steps))
+    return scripts
+
+
+def judge_sequences(res, out, requests, expected, descs):
+    reused = 0
+    for o in out:
+        sc = o["script"]
+        if "error" in o:
+            res.fail("measured:sequence-raises", dict(stream="sequence", script=sc), o["error"])
+        for k, m in enumerate(o["calls"]):
+            res.evaluations += 1
+            res.count("sequence:" + sc["backend"] + ":" + m["step"]["form"])
+            desc = dict(stream="sequence", script=sc, call_index=k, measured={x: m[x] for x in ("cls", "n_jobs", "resolved", "highwater", "workers", "pids", "before", "after")},
+                        env=dict(LOKY_MAX_CPU_COUNT=SEQ_CPUS, exported_num_threads=not sc.get("imnt") and sc["backend"] == "loky"))
+            res.nontrivial.add(("sequence", json.dumps(sc, sort_keys=True), k))
+            r = m["resolved"]
+            if not isinstance(r, int):
+                res.fail("measured:effective_n_jobs-raises", desc, r)
+                continue
+            if m["highwater"] > r:
+                res.fail("measured:more-tasks-at-once-than-n_jobs", desc, dict(highwater=m["highwater"], n_jobs=r))
+            if m["workers"] > r:
+                res.fail("measured:more-workers-than-n_jobs", desc, dict(workers=m["workers"], n_jobs=r))
+            if m["cls"] == "L" and r > 1 and m["after"] is not None:
+                if m["after"]["alive"] > r:
+                    res.fail("measured:executor-keeps-more-workers-than-n_jobs", desc, dict(alive=m["after"]["alive"], n_jobs=r))
+                b = m["before"]
+                # inside `with Parallel(...)` the executor was resized by __enter__, i.e. before `before` was read
+                same = b is not None and b["id"] == m["after"]["id"]
+                if same:
+                    reused += 1
+                    res.count("sequence:loky-executor-reused")
+                    if b["max"] > r:
+                        res.count("sequence:loky-executor-shrunk")
+                    requests.append(f"resize {b['max']} {b['alive']} {int(b['started'])} 1 {r}")
+                else:
+                    requests.append(f"resize - 0 0 0 {r}")
+                expected.append(f"{m['after']['alive']} {m['after']['max']}")
+                descs.append(dict(desc, stream="reusable-executor"))
+    return reused
+
+
+def check_sequences(ctx, res, W, replay_script=None):
+    """MEASURED runs on the real backends (quick tier too): consecutive calls with growing / shrinking n_jobs."""
+    nseq = 6 if ctx.thorough else 4
+    dur, ntasks = (0.05, 16) if ctx.thorough else (0.04, 12)
+    base = {"LOKY_MAX_CPU_COUNT": str(SEQ_CPUS)}
+    exported = dict(base, **{v: "1" for v in NUM_THREADS_VARS})
+    if replay_script is not None:
+        sc = replay_script
+        env = exported if (sc["backend"] == "loky" and not sc.get("imnt")) else base
+        jobs = [(dict(kind="sequence", scripts=[sc], dur=dur, ntasks=ntasks), env)]
+    else:
+        jobs = [
+            # loky reuses its executor only when the worker environment is unchanged: exported *_NUM_THREADS …
+            (dict(kind="sequence", scripts=sequence_scripts(ctx, "loky", False, [False, False, True], nseq), dur=dur, ntasks=ntasks), exported),
+            # … or inner_max_num_threads given
+            (dict(kind="sequence", scripts=sequence_scripts(ctx, "loky", True, [True, False], min(nseq, 3)), dur=dur, ntasks=ntasks), base),
+            (dict(kind="sequence", scripts=sequence_scripts(ctx, "threading", False, [False, True], nseq), dur=dur, ntasks=ntasks), base),
+            (dict(kind="sequence", scripts=sequence_scripts(ctx, "multiprocessing", False, [False, True], nseq), dur=dur, ntasks=ntasks), base),
+        ]
+    procs = [W.start(j, env=e) for j, e in jobs]
+    return lambda: finish_sequences(ctx, res, W, procs, replay_script)
+
+
+def finish_sequences(ctx, res, W, procs, replay_script):
+    requests, expected, descs = [], [], []
+    reused = 0
+    for p in procs:
+        reused += judge_sequences(res, W.finish(p, timeout=300), requests, expected, descs)
+    if replay_script is None and (reused == 0 or not res.dist.get("sequence:loky-executor-shrunk")):
+        raise core.InfraError("the loky sequences never reused and shrank the executor: the reuse conditions are not met on this host")
+    replies = ctx.driver().run(requests)
+    for d, e, g in zip(descs, expected, replies):
+        res.traces_validated += 1
+        if e != g.strip():
+            res.diverge(d["stream"], d, e, g)
+
+
 def supporting(ctx, res, W):
     """Measured, not proved (thorough tier)."""
     notes = []
@@ -749,9 +910,25 @@ def supporting(ctx, res, W):
 # ----------------------------------------------------------------------------- entry points
 
 
+def _per_signature_cap(res, cap=5):
+    """core.Result keeps the first 200 failures: keep at most `cap` per signature so that a flood from the exhaustive
+    grid cannot crowd out the (later) measured runs. Every failure is still counted."""
+    orig, seen = res.fail, {}
+
+    def fail(signature, case, detail):
+        seen[signature] = seen.get(signature, 0) + 1
+        if seen[signature] <= cap:
+            orig(signature, case, detail)
+        else:
+            res.count("oracle_failures")
+
+    res.fail = fail
+
+
 def run(ctx):
     core.use_repo()
     res = Result()
+    _per_signature_cap(res)
     res.rule = ("one evaluation = one (situation, n_jobs) pair answered by the real effective_n_jobs / _initialize_backend, or one "
                 "cpu_count() call; non-trivial and distinct = distinct situation rows (class, nesting level, thread, daemon, loky depth, "
                 "cpu count, mp available) resp. distinct machine shapes (os count, affinity, cgroup, LOKY_MAX_CPU_COUNT, physical)")
@@ -761,6 +938,9 @@ def run(ctx):
     host_cpus = len(os.sched_getaffinity(0))
     if ctx.replay:
         case = ctx.replay.get("case", {})
+        if case.get("stream") in ("sequence", "reusable-executor") and "script" in case:
+            check_sequences(ctx, res, W, replay_script=case["script"])()
+            return res
         row = case.get("row")
         if row is None:
             raise core.InfraError("replay of this stream is not supported: rerun the check with the same VERIF_SEED")
@@ -770,9 +950,11 @@ def run(ctx):
         eff_oracle(res, row, 1 if row.get("mp_none") else c, list(range(-2 * c, 2 * c + 1)), [canon(e) for e in out["eff"]], [canon(r) for r in out["init"]])
         res.evaluations += 1
         return res
+    finish_seq = check_sequences(ctx, res, W)  # started first: runs alongside the exhaustive grid
     check_cpu(ctx, res, W)
     check_eff(ctx, res, W, host_cpus)
     check_nested(ctx, res, W)
+    finish_seq()
     if ctx.thorough:
         supporting(ctx, res, W)
     else:
